@@ -49,6 +49,18 @@ def adv_idents():
                                     "le", "gt", "ge", "add", "sub", "mul", "div", "mod"))
 
 
+def hostile_idents():
+    """Field spellings with characters outside the identifier alphabet: the lexer is expected to
+    reject them (that restriction is the mechanism); if one is ever accepted it must still end up
+    inside exactly one quoted identifier."""
+    return st.tuples(st.sampled_from(list("abX_")), st.text(alphabet=st.sampled_from(list("ab\";$[]{}\\#@!?`")), min_size=1, max_size=5)).map("".join).filter(is_hostile)
+
+
+def is_hostile(name):
+    import re
+    return re.fullmatch(r"\w+", name) is None
+
+
 def instantiate(t, strings, fields):
     """Replace the i-th string literal by strings[i] and field name f by fields[f]."""
     counter = [0]
@@ -126,6 +138,10 @@ def check_case(case):
                 if ra[0] == rb[0]:
                     continue
                 return ("outcome-depends-on-content", "%s: benign %r -> %s, adversarial %r -> %s" % (dname, rb[2], rb[:2], ra[2], ra[:2]))
+            if ra[0] == "parse-exc" and ra[1] in ("TokenizingException", "ParsingException") and \
+                    any(is_hostile(v) for v in adv_f.values()):
+                case["_hostile_rejected"] = case.get("_hostile_rejected", 0) + 1
+                continue
             if ra[0] != "ok":
                 return ("adversarial-rejected:" + ra[0], "%s: benign %r ok, adversarial %r -> %s" % (dname, rb[2], ra[2], ra[1]))
             sb, sa_ = rb[1], ra[1]
@@ -273,6 +289,7 @@ def run_task(task, seed, acc):
         t = from_json(case["term"])
         r = check_case(case)
         prepared = case.pop("_sqlite_prepared", 0)
+        acc.cls("hostile_field_spelling_rejected_by_lexer", case.pop("_hostile_rejected", 0))
         nt = nontrivial(t, case["strings"])
         acc.case(key=digest([case["term"], case["strings"], case.get("fields")]), nontrivial=nt, n=6,
                  sample={"adversarial_filter": printer.render(instantiate(
@@ -304,7 +321,10 @@ def run_task(task, seed, acc):
         n = len(string_holes(t))
         strings = [draw(adv_strings()) for _ in range(n)]
         fields = None
-        if draw(st.integers(0, 3)) == 0:
+        k = draw(st.integers(0, 5))
+        if k == 1:
+            fields = [draw(hostile_idents()) for _ in field_names(t)]
+        if k == 0:
             fields = [draw(adv_idents()) for _ in field_names(t)]
             if len(set(fields)) != len(fields):
                 fields = None
